@@ -291,5 +291,5 @@ def strategy(draw):
 
 PHASES = [
     Phase("histories", run_case, strategy=strategy,
-          examples={"quick": 6000, "thorough": 60000}),
+          examples={"quick": 6000, "thorough": 200000}),
 ]
